@@ -125,4 +125,14 @@ Lemma demo_ali_steps :
     [(Some (0, [0; 1], [[2]; [3]]), None)].
 Proof. cbv. repeat split; reflexivity. Qed.
 
+(* grafting: orig.copy(copy.residues) and orig.deep_copy(copy.residues) go through; residues of a
+   handle that is not a molecule/residue/system are a TypeError; a list argument to a whole-body setter
+   is rejected before anything is written *)
+Lemma demo_graft_steps :
+  snd (step (demo_heap, demo_fam) (0, OCopyWith false 0 1 0)) = Ok tt /\
+  snd (fst (step (demo_heap, demo_fam) (0, OCopyWith false 0 1 0))) = (demo_fam ++ [(2, 0, HM 0 [0; 1] [[4]; [5]])])%list /\
+  snd (fst (step (demo_heap, demo_fam) (0, OCopyWith true 1 1 0))) = (demo_fam ++ [(2, 2, HM 1 [2; 3] [[6]; [7]])])%list /\
+  step (demo_heap, demo_fam) (0, OBadArg) = ((demo_heap, demo_fam), Err EType).
+Proof. cbv. repeat split; reflexivity. Qed.
+
 End Demo.
